@@ -547,3 +547,751 @@ def check_family(chk, rig, scs, oracle, tag, retries=2):
                                runs=history), no_input=True)
         return False
     return True
+
+
+# ================================================================ a unit's whole life
+# Scenario fields in addition to u / period / ta / grace / leak / sigs:
+#   attempts=[dict(dur=, exit=, on_term=, hold=, stops=), ...]  one behaviour per attempt (the last one repeats)
+#   retries=N, delay=D (time units), backoff="fixed"|"exponential", max_delay=None|M
+#   canceller=dict(fail_at=T): a second test (other binary, no retries) failing at T with fail-fast on:
+#     the subject then receives OtherCancel
+# Model side: Model/UnitLifeEnv.v `life_report`.
+
+LIFE_IMPORTS = ["Base.Str", "Model.Backoff", "Model.Clocks", "Model.UnitTimers", "Model.UnitEnv", "Model.UnitLife",
+                "Model.UnitLifeEnv", "gen.GenPauseTable"]
+INFO_STATE = {110: "running", 111: "terminating", 112: "exiting", 113: "delay"}
+
+
+def life_delay_units(sc, k):
+    """configured delay after attempt k (1-based), in time units"""
+    d = sc["delay"]
+    if sc.get("backoff", "fixed") == "exponential":
+        d = d * 2 ** (k - 1)
+        if sc.get("max_delay") is not None:
+            d = min(d, sc["max_delay"])
+    return d
+
+
+def life_config(sc, profile="default"):
+    u = sc["u"]
+    st = f'period = "{ms(sc["period"], u)}ms"'
+    if sc.get("ta"):
+        st += f', terminate-after = {sc["ta"]}'
+    st += f', grace-period = "{ms(sc["grace"], u)}ms"'
+    cfg = (f'[profile.{profile}]\nslow-timeout = {{ {st} }}\nleak-timeout = "{ms(sc["leak"], u)}ms"\n'
+           f'fail-fast = {"true" if sc.get("canceller") else "false"}\nretries = 0\n')
+    pol = f'backoff = "{sc.get("backoff", "fixed")}", count = {sc["retries"]}, delay = "{ms(sc["delay"], u)}ms"'
+    if sc.get("backoff") == "exponential" and sc.get("max_delay") is not None:
+        pol += f', max-delay = "{ms(sc["max_delay"], u)}ms"'
+    cfg += f'[[profile.{profile}.overrides]]\nfilter = "test(subject)"\nretries = {{ {pol} }}\n'
+    return cfg
+
+
+def _puppet_beh(a, u, life_dur):
+    beh = {"sleep": a["dur"] * u, "exit": a.get("exit", 0)}
+    ot = a.get("on_term", "exit")
+    if ot == "exit":
+        beh["on_term"] = "die"
+    elif ot == "ignore":
+        beh["on_term"] = "ignore"
+    else:
+        beh["on_term"] = f"late:{ot[1] * u}"
+        if ot[0] == "late_ok":
+            beh["term_exit"] = 0
+    if not a.get("stops", True):
+        beh["tstp"] = "ignore"
+    if a.get("hold"):
+        beh["child"] = {"for": (a["dur"] + a["hold"]) * u, "hold": ["stdout"], "on_term": "ignore"}
+    return beh
+
+
+def life_puppet(sc):
+    u = sc["u"] / 1000.0
+    atts = [_puppet_beh(a, u, 0) for a in sc["attempts"]]
+    bins = {"alpha::t1": {"tests": {"subject": {"attempts": atts}}}}
+    if sc.get("canceller"):
+        bins["beta::t1"] = {"tests": {"canceller": {"attempts": [{"sleep": sc["canceller"]["fail_at"] * u, "exit": 1}]}}}
+    return {"bins": bins}
+
+
+def life_coq_case(sc, unicast=True):
+    u = sc["u"]
+    cfg = (f"{{| period := {ms(sc['period'], u)}; terminate_after := "
+           f"{'Some ' + str(sc['ta']) if sc.get('ta') else 'None'}; grace := {ms(sc['grace'], u)}; "
+           f"leak_timeout := {ms(sc['leak'], u)} |}}")
+    if sc.get("backoff", "fixed") == "exponential":
+        md = "None" if sc.get("max_delay") is None else f"(Some {ms(sc['max_delay'], u)})"
+        pol = f"(Exponential {sc['retries']} {ms(sc['delay'], u)} false {md})"
+    else:
+        pol = f"(Fixed {sc['retries']} {ms(sc['delay'], u)} false)"
+    behs = []
+    for a in sc["attempts"]:
+        ot = a.get("on_term", "exit")
+        react = {"exit": "OnTermExit", "ignore": "OnTermIgnore"}.get(ot) if isinstance(ot, str) else \
+            f"({'OnTermLateOk' if ot[0] == 'late_ok' else 'OnTermLate'} {ms(ot[1], u)})"
+        behs.append(f"{{| b_dur := {ms(a['dur'], u)}; b_exit_ok := {vlib.coq_bool(a.get('exit', 0) == 0)}; "
+                    f"b_on_term := {react}; b_hold := {ms(a.get('hold', 0), u)}; "
+                    f"b_stops := {vlib.coq_bool(a.get('stops', True))} |}}")
+    reqs, shuts = [], 0
+    evs = [(t, n) for t, n in sc["sigs"]]
+    if sc.get("canceller"):
+        evs.append((sc["canceller"]["fail_at"], "OTHERCANCEL"))
+    evs.sort(key=lambda p: p[0])
+    for t, name in evs:
+        if name == "TSTP":
+            r = "RStop"
+        elif name == "CONT":
+            r = "RContinue"
+        elif name == "OTHERCANCEL":
+            r = "ROtherCancel"
+        elif name in SHUT:
+            shuts += 1
+            if shuts > 2:
+                continue
+            r = f"(RShutdown (Once {SHUT[name]}))" if shuts == 1 else "(RShutdown Twice)"
+        else:
+            r = "RGetInfo"
+        reqs.append(f"({ms(t, u)}, {r})")
+    return (f"life_report pause_table {cfg} {pol} {vlib.coq_list(behs)} {vlib.coq_list(reqs)} "
+            f"{vlib.coq_bool(unicast)}")
+
+
+def predict_life(scs, tag="life", unicast=True):
+    vals = vlib.coq_eval(tag, LIFE_IMPORTS, [life_coq_case(sc, unicast) for sc in scs])
+    out = []
+    for v in vals:
+        if v == [[1]]:
+            out.append({"panicked": True})
+            continue
+        hd, at, mk, tr, dl = v
+        trip = lambda l: [(l[i], l[i + 1], l[i + 2]) for i in range(0, len(l), 3)]
+        marks = trip(mk)
+        out.append({"panicked": False,
+                    "ended": {4: "finished", 5: "refused"}.get(hd[1], "running"),
+                    "attempts_started": len([m for m in marks if m[0] == 1]), "end": hd[3],
+                    "attempts": [dict(no=at[i], result=["pass", "leak", "fail", "timeout"][at[i + 1]],
+                                      slow=bool(at[i + 2]), time_taken=at[i + 3]) for i in range(0, len(at), 4)],
+                    "starts": {k: t for kind, k, t in marks if kind == 1},
+                    "ends": {k: t for kind, k, t in marks if kind == 2},
+                    "delay_ends": {k: t for kind, k, t in marks if kind == 3},
+                    "trace": [(t, k, c) for t, k, c in trip(tr)],
+                    "delays": {dl[i]: dl[i + 1] for i in range(0, len(dl), 2)}})
+    return out
+
+
+def run_real_life(rig, sc, timeout=60):
+    u = sc["u"] / 1000.0
+    t_start = [None]
+
+    def mk_trigger(delay):
+        def f(ctx):
+            if t_start[0] is None:
+                for r in e2e.read_jsonl(ctx["tap"]):
+                    if "mono" in r and r.get("kind") == "TestStarted" and r["test"][1] == "subject":
+                        t_start[0] = r["mono"]
+                        break
+            return t_start[0] is not None and time.monotonic() >= t_start[0] + delay
+        return f
+
+    sigs = [(mk_trigger(t * u), SIGNO[name]) for t, name in sc["sigs"]]
+    args = ["--fail-fast" if sc.get("canceller") else "--no-fail-fast", "--test-threads", "4"]
+    return rig.run(life_puppet(sc), life_config(sc), args=args, signals=sigs, timeout=timeout)
+
+
+def observe_life(sc, res):
+    log, tap = res["log"], res["tap"]
+    ts = [e for e in tap if e.get("kind") == "TestStarted" and e["test"][1] == "subject" and "mono" in e]
+    if not ts:
+        return {"started": False, "rc": res["rc"], "stderr": res["stderr"][-1500:]}
+    t0 = ts[0]["mono"]
+    rel = lambda t: (t - t0) * 1000.0
+    sub = lambda e: e.get("test", [None, None])[1] == "subject"
+    starts = {r["attempt"]: r for r in log if r.get("ev") == "start" and r.get("test") == "subject"}
+    pend = {r["attempt"]: r for r in log if r.get("ev") == "end" and r.get("test") == "subject"}
+    fails = [e for e in tap if e.get("kind") == "TestAttemptFailedWillRetry" and sub(e)]
+    retries = [e for e in tap if e.get("kind") == "TestRetryStarted" and sub(e)]
+    fin = [e for e in tap if e.get("kind") == "TestFinished" and sub(e)]
+    statuses = {}
+    for e in fails:
+        statuses[e["status"]["attempt"]] = dict(e["status"], mono=e["mono"])
+    if fin:
+        for s in fin[0]["statuses"]:
+            statuses.setdefault(s["attempt"], dict(s, mono=fin[0]["mono"]))
+        statuses[fin[0]["statuses"][-1]["attempt"]]["mono"] = fin[0]["mono"]
+    attempts = []
+    for k in sorted(statuses):
+        s = statuses[k]
+        attempts.append(dict(no=k, result=s["result"]["kind"], slow=s["is_slow"], time_taken=s["time_taken_ns"] / 1e6,
+                             reported_t=rel(s["mono"]), delay_before=s["delay_before_start_ns"] / 1e6))
+    # information requests: one InfoStarted ... InfoFinished group per request
+    groups, cur = [], None
+    for e in tap:
+        if e.get("kind") == "InfoStarted":
+            cur = dict(t=rel(e["mono"]), total=e["total"], responses=[])
+            groups.append(cur)
+        elif e.get("kind") == "InfoResponse" and cur is not None:
+            if e["unit"].get("test", [None, None])[1] == "subject":
+                cur["responses"].append(e["state"])
+        elif e.get("kind") == "InfoFinished" and cur is not None:
+            cur["missing"] = e["missing"]
+            cur = None
+    pids = [r["pid"] for r in starts.values()]
+    runfin = [e for e in tap if e.get("kind") == "RunFinished"]
+    o = {"started": True, "rc": res["rc"], "t0": t0,
+         "attempt_starts": {k: rel(r["t"]) for k, r in starts.items()},
+         "attempt_pids": {k: r["pid"] for k, r in starts.items()},
+         "attempt_ends": {k: (rel(r["t"]), r["how"]) for k, r in pend.items()},
+         "retry_started": {e["attempt"]: rel(e["mono"]) for e in retries},
+         "failed_will_retry": {e["status"]["attempt"]: rel(e["mono"]) for e in fails},
+         "fail_delays": {e["status"]["attempt"]: e["delay_ns"] / 1e6 for e in fails},
+         "attempts": attempts, "finished": bool(fin), "finished_t": rel(fin[0]["mono"]) if fin else None,
+         "sig_test": {k: [(rel(r["t"]), r["signo"]) for r in log if r.get("ev") == "sig" and r.get("test") == "subject"
+                          and r.get("who") == "test" and r.get("attempt") == k] for k in starts},
+         "info_groups": groups,
+         "slow_events": [(e["attempt"], e["elapsed_ns"] / 1e6, e["will_terminate"]) for e in tap
+                         if e.get("kind") == "TestSlow" and sub(e)],
+         "nextest_exit_t": rel(res["t_end"]), "sent": [(rel(t), s) for t, s in res["sent"]],
+         "panic": ("panicked" in res["stderr"]) or res["rc"] == 101, "timed_out": res["timed_out"],
+         "pids_alive_after": [p for p in pids if e2e.alive(p)],
+         "paused_events": [(e["kind"], rel(e["mono"])) for e in tap if e.get("kind") in ("RunPaused", "RunContinued")],
+         "cancel_events": [(e["kind"], e.get("reason"), rel(e["mono"])) for e in tap
+                           if e.get("kind") in ("RunBeginCancel", "RunBeginKill")],
+         "canceller_end": None}
+    ce = [r for r in log if r.get("ev") == "end" and r.get("test") == "canceller"]
+    if ce:
+        o["canceller_end"] = rel(ce[0]["t"])
+    if runfin:
+        o["run_elapsed"] = runfin[0]["elapsed_ns"] / 1e6
+    return o
+
+
+def life_shape(p):
+    """the qualitative part of a prediction"""
+    if p.get("panicked"):
+        return None
+    return (p["ended"], p["attempts_started"], [(a["result"], a["slow"]) for a in p["attempts"]],
+            [(k, c) for _, k, c in p["trace"]])
+
+
+def compare_life(sc, pred, obs, eps=None):
+    u = sc["u"]
+    eps = eps or 0.45 * u
+    if pred.get("panicked"):
+        return ["model predicts an internal failure"]
+    if not obs.get("started"):
+        return ["subject never started"]
+    bad = []
+    n_obs = len(obs["attempt_starts"])
+    if n_obs != pred["attempts_started"]:
+        bad.append(f"attempts started: nextest {n_obs}, model {pred['attempts_started']}")
+        return bad
+    want_end = pred["ended"]
+    got_end = "finished" if obs["finished"] else "refused"
+    if want_end in ("finished", "refused") and want_end != got_end:
+        bad.append(f"how the unit ended: nextest {got_end} (TestFinished event: {obs['finished']}), model {want_end}")
+    # attempt boundaries: attempt 1 starts at 0 by definition; later ones at the TestRetryStarted event
+    for k, t in pred["starts"].items():
+        if k >= 2:
+            tg = obs["retry_started"].get(k)
+            if tg is None:
+                bad.append(f"no TestRetryStarted event for attempt {k}")
+            elif abs(tg - t) > eps + 0.05 * t:
+                bad.append(f"attempt {k} started at {tg:.0f} ms, model {t} ms")
+    got_att = {a["no"]: a for a in obs["attempts"]}
+    for a in pred["attempts"]:
+        g = got_att.get(a["no"])
+        if g is None:
+            bad.append(f"no reported status for attempt {a['no']} (model: {a['result']})")
+            continue
+        if g["result"] != a["result"]:
+            bad.append(f"attempt {a['no']} result: nextest {g['result']}, model {a['result']}")
+        if g["slow"] != a["slow"]:
+            bad.append(f"attempt {a['no']} is_slow: nextest {g['slow']}, model {a['slow']}")
+        if abs(g["time_taken"] - a["time_taken"]) > eps + 0.05 * a["time_taken"] + 40:
+            bad.append(f"attempt {a['no']} time_taken: nextest {g['time_taken']:.0f} ms, model {a['time_taken']} ms")
+        te = pred["ends"].get(a["no"])
+        if te is not None and abs(g["reported_t"] - te) > eps + 0.05 * te + 40:
+            bad.append(f"attempt {a['no']} reported at {g['reported_t']:.0f} ms, model {te} ms")
+    for k, d in pred["delays"].items():
+        g = obs["fail_delays"].get(k)
+        if g is None or abs(g - d) > 1:
+            bad.append(f"delay announced after attempt {k}: nextest {g} ms, model {d} ms")
+    for k in obs["attempt_starts"]:
+        want = [(t, c) for t, kk, c in pred["trace"] if kk == k and c in CATCHABLE]
+        got = obs["sig_test"].get(k, [])
+        if [c for _, c in want] != [c for _, c in got]:
+            bad.append(f"signals received by attempt {k}: nextest {got}, model {want}")
+        else:
+            for (tw, c), (tg, _) in zip(want, got):
+                if abs(tw - tg) > eps + 0.05 * tw:
+                    bad.append(f"attempt {k}: signal {c} at {tg:.0f} ms, model {tw} ms")
+    if not any(n in SHUT for _, n in sc["sigs"]):
+        # (after a kill that ends a signal-termination "interval elapsed" and "child exited" race: see compare)
+        want_slow = [(k, c == 101) for _, k, c in pred["trace"] if c in (100, 101)]
+        got_slow = [(k, w) for k, _, w in obs["slow_events"]]
+        if want_slow != got_slow:
+            bad.append(f"slow events (attempt, will_terminate): nextest {obs['slow_events']}, model {want_slow}")
+    want_info = [INFO_STATE[c] for _, _, c in pred["trace"] if c in INFO_STATE]
+    got_info = [r["state"] for g in obs["info_groups"] for r in g["responses"]]
+    if want_info != got_info:
+        bad.append(f"information responses: nextest {got_info}, model {want_info}")
+    # when the subject is the last thing running, nextest exits when the unit ends
+    if want_end in ("finished", "refused") and not sc.get("canceller"):
+        if obs["nextest_exit_t"] > pred["end"] + 2.5 * eps + 150 + 0.05 * pred["end"]:
+            bad.append(f"nextest exited at {obs['nextest_exit_t']:.0f} ms, the unit ends at {pred['end']} ms in the model")
+        if obs["nextest_exit_t"] < pred["end"] - eps - 0.05 * pred["end"]:
+            bad.append(f"nextest exited at {obs['nextest_exit_t']:.0f} ms, before the unit ends in the model ({pred['end']} ms)")
+    return bad
+
+
+# ---------------------------------------------------------------- oracles for the whole life (no model)
+
+def _phase_at(sc, obs, t):
+    """which wait loop the subject was in at time t (ms), from what was observed; None near a boundary"""
+    u = sc["u"]
+    eps = 0.45 * u
+    ks = sorted(obs["attempt_starts"])
+    rep = {a["no"]: a["reported_t"] for a in obs["attempts"]}
+    for k in ks:
+        st = 0.0 if k == 1 else obs["retry_started"].get(k)
+        if st is None:
+            return None
+        spawned = obs["attempt_starts"][k]
+        pe = obs["attempt_ends"].get(k)
+        reported = rep.get(k)
+        died = pe[0] if pe else reported
+        if died is None:
+            died = obs["nextest_exit_t"]
+        if spawned + 20 < t < died - eps:
+            terms = [ts for ts, s in obs["sig_test"].get(k, []) if s in (1, 2, 3, 15)]
+            if terms and t > terms[0] + 20:
+                return "terminating"
+            if terms and t > terms[0] - eps:
+                return None
+            return "running"
+        if pe and reported is not None and pe[0] + 30 < t < reported - eps:
+            return "exiting"
+        nxt = obs["retry_started"].get(k + 1)
+        if reported is not None and k in obs["failed_will_retry"]:
+            end_delay = nxt if nxt is not None else obs["nextest_exit_t"]
+            if reported + 30 < t < end_delay - eps:
+                return "delay"
+    return None
+
+
+def oracle_life(sc, obs):
+    """written from the property statements (C07 not sooner / stretched by stopped time, C10-C11 nothing new after
+    cancellation and prompt exit, C12 time excluded and no start while stopped, information requests)"""
+    if obs.get("panic"):
+        return "nextest failed internally (panic)"
+    if obs.get("timed_out"):
+        return "nextest did not exit (hung)"
+    if not obs.get("started"):
+        return None
+    if obs.get("pids_alive_after"):
+        return f"test processes {obs['pids_alive_after']} still alive after nextest exited"
+    # signals are sent in order; those scheduled after nextest had already exited were never sent
+    sc = dict(sc, sigs=list(sc["sigs"])[:len(obs.get("sent", sc["sigs"]))])
+    u = sc["u"]
+    eps = 0.45 * u
+    stops = stopped_intervals(sc)
+    shut = [(t * u, n) for t, n in sc["sigs"] if n in SHUT]
+    cancel_t = None
+    if shut:
+        cancel_t = shut[0][0]
+    if sc.get("canceller") and obs.get("canceller_end") is not None:
+        cancel_t = obs["canceller_end"] if cancel_t is None else min(cancel_t, obs["canceller_end"])
+    total = sc["retries"] + 1
+    if len(obs["attempt_starts"]) > total:
+        return f"{len(obs['attempt_starts'])} attempts with retries = {sc['retries']}"
+    rep = {a["no"]: a for a in obs["attempts"]}
+    # ---- C07: the next attempt starts only after the configured delay of *unstopped* time; C12: and not
+    # while the run is stopped; and the delay is stretched by exactly the stopped time
+    for k, t_fail in sorted(obs["failed_will_retry"].items()):
+        want = life_delay_units(sc, k) * u
+        if abs(obs["fail_delays"][k] - want) > 1:
+            return f"delay announced after attempt {k} is {obs['fail_delays'][k]} ms, configured {want} ms"
+        t_next = obs["retry_started"].get(k + 1)
+        if t_next is None:
+            continue
+        gap = unstopped(t_next, stops) - unstopped(t_fail, stops)
+        if gap < want - 15:
+            return (f"attempt {k + 1} started {gap:.0f} ms of unstopped time after attempt {k} failed "
+                    f"(wall {t_next - t_fail:.0f} ms); the configured delay is {want:.0f} ms")
+        if gap > want + eps + 0.05 * want + 60 and (cancel_t is None or cancel_t > t_next):
+            return (f"attempt {k + 1} started {gap:.0f} ms of unstopped time after attempt {k} failed; "
+                    f"the configured delay is {want:.0f} ms")
+        for a, b in stops:
+            if a + 150 < t_next < b - 5:
+                return f"attempt {k + 1} started at {t_next:.0f} ms while the run was stopped ({a:.0f}..{b:.0f} ms)"
+        if cancel_t is not None and t_next > cancel_t + eps:
+            return (f"attempt {k + 1} started at {t_next:.0f} ms, after cancellation began at {cancel_t:.0f} ms")
+    # no attempt after a passing one
+    for k, a in rep.items():
+        if a["result"] in ("pass", "leak") and (k + 1) in obs["attempt_starts"]:
+            return f"attempt {k + 1} started although attempt {k} passed"
+    # ---- C12: reported time excludes stopped time
+    for k, a in rep.items():
+        st = 0.0 if k == 1 else obs["retry_started"].get(k)
+        if st is None:
+            continue
+        running = unstopped(a["reported_t"], stops) - unstopped(st, stops)
+        if a["time_taken"] > running + eps + 60:
+            return (f"attempt {k}: reported time_taken {a['time_taken']:.0f} ms, but only {running:.0f} ms of "
+                    f"unstopped time passed between its start and its report")
+    # ---- C10 / C11: after cancellation nothing new starts and nextest does not sit out a retry delay
+    if cancel_t is not None:
+        late = [k for k, t in obs["attempt_starts"].items() if t > cancel_t + eps + 60]
+        if late:
+            return f"attempts {late} spawned after cancellation began at {cancel_t:.0f} ms"
+        # when must everything be over? the last subject process to die, or the canceller
+        deaths = []
+        for k in obs["attempt_starts"]:
+            pe = obs["attempt_ends"].get(k)
+            r = rep.get(k)
+            deaths.append(r["reported_t"] if r else (pe[0] if pe else cancel_t))
+        last = max(deaths + [cancel_t] + ([obs["canceller_end"]] if obs.get("canceller_end") else []))
+        if all(b <= cancel_t for _, b in stops) and obs["nextest_exit_t"] > last + 2.5 * eps + 150:
+            return (f"cancellation began at {cancel_t:.0f} ms, every process had ended by {last:.0f} ms, nextest exited "
+                    f"only at {obs['nextest_exit_t']:.0f} ms (retry delay {life_delay_units(sc, 1) * u:.0f} ms)")
+        if obs["rc"] == 0:
+            return "nextest exited 0 although the run was cancelled"
+        if not any(k == "RunBeginCancel" for k, _, _ in obs["cancel_events"]):
+            return "no RunBeginCancel event although cancellation was requested"
+    # ---- information requests: exactly one response from the subject, naming the loop it is in
+    usr = [t * u for t, n in sc["sigs"] if n == "USR1"]
+    if usr and len(obs["info_groups"]) != len(usr):
+        return f"{len(usr)} information requests sent, {len(obs['info_groups'])} InfoStarted events"
+    for t, g in zip(usr, obs["info_groups"]):
+        ph = _phase_at(sc, obs, g["t"])
+        if ph is None:
+            continue
+        if len(g["responses"]) != 1:
+            return (f"information request at {g['t']:.0f} ms (subject in its {ph} phase) answered "
+                    f"{len(g['responses'])} times by the subject")
+        if g["responses"][0]["state"] != ph:
+            return f"information request at {g['t']:.0f} ms: response state {g['responses'][0]['state']}, the unit was {ph}"
+    return None
+
+
+def run_life_scenarios(rig, scs, par=4, timeout=60):
+    out = [None] * len(scs)
+    idx = list(range(len(scs)))
+    lock = threading.Lock()
+
+    def worker():
+        while True:
+            with lock:
+                if not idx:
+                    return
+                i = idx.pop(0)
+            res = run_real_life(rig, scs[i], timeout=timeout)
+            out[i] = observe_life(scs[i], res)
+            out[i]["_stderr_tail"] = res["stderr"][-600:]
+            rig.cleanup(res)
+
+    ths = [threading.Thread(target=worker) for _ in range(par)]
+    for t in ths:
+        t.start()
+    for t in ths:
+        t.join()
+    return out
+
+
+def _shift_durs(sc, d):
+    return dict(sc, attempts=[dict(a, dur=max(0.05, a["dur"] + d)) for a in sc["attempts"]])
+
+
+def check_life_family(chk, rig, scs, tag, retries=2, oracle=oracle_life):
+    """as check_family, for whole-life scenarios"""
+    lo = predict_life([_shift_durs(sc, -0.4) for sc in scs], tag + "lo")
+    hi = predict_life([_shift_durs(sc, 0.4) for sc in scs], tag + "hi")
+    preds = predict_life(scs, tag)
+    keep = [i for i in range(len(scs)) if life_shape(lo[i]) == life_shape(preds[i]) == life_shape(hi[i])]
+    chk.count("life_scenarios_dropped_as_threshold_coincidences", len(scs) - len(keep))
+    scs = [scs[i] for i in keep]
+    preds = [preds[i] for i in keep]
+    obss = run_life_scenarios(rig, scs)
+    for sc, p, o in zip(scs, preds, obss):
+        chk.count("e2e_runs")
+        chk.count("life_e2e_runs")
+        chk.count("life:" + sc.get("family", "other"))
+        why = oracle(sc, o)
+        diff = compare_life(sc, p, o) if o.get("started") else []
+        if not why and not diff:
+            continue
+        history = [dict(scenario=sc, observation=o, model=p, oracle=why, diff=diff)]
+        cur = sc
+        confirmed = True
+        for _ in range(retries):
+            cur = dict(cur, u=cur["u"] * 2)
+            p2 = predict_life([cur], tag + "r")[0]
+            o2 = run_life_scenarios(rig, [cur], par=1, timeout=120)[0]
+            why2, diff2 = oracle(cur, o2), (compare_life(cur, p2, o2) if o2.get("started") else [])
+            history.append(dict(scenario=cur, observation=o2, model=p2, oracle=why2, diff=diff2))
+            chk.count("e2e_reruns")
+            if not why2 and not diff2:
+                confirmed = False
+                break
+        if not confirmed:
+            chk.count("timing_flakes_not_reproduced")
+            continue
+        hard = [h for h in history if h["oracle"]]
+        if hard:
+            chk.violation("counterexample", "oracle:" + chk.prop + ":unit-life",
+                          dict(clause=hard[0]["oracle"], runs=history))
+        else:
+            chk.violation("broken-obligation", "corr:unit-life",
+                          dict(note="nextest and the whole-life unit model disagree; the property oracle accepted the runs",
+                               runs=history), no_input=True)
+        return False
+    return True
+
+
+# ---- scenario families
+
+def _att(dur, exit=1, on_term="exit", hold=0, stops=True):
+    return dict(dur=dur, exit=exit, on_term=on_term, hold=hold, stops=stops)
+
+
+def life_base(**kw):
+    sc = dict(u=150, period=30, ta=None, grace=2, leak=0.7, retries=2, delay=5, backoff="fixed", sigs=[],
+              attempts=[_att(1.5, 1), _att(1.5, 0)])
+    sc.update(kw)
+    return sc
+
+
+def life_stop_in_delay(r=None):
+    """SIGTSTP / SIGCONT landing in the retry delay: the delay stretches by the stopped time and the next
+    attempt does not start while stopped"""
+    scs = [life_base(family="stop-in-delay", sigs=[(3.5, "TSTP"), (8.5, "CONT")]),
+           life_base(family="stop-in-delay", delay=4, sigs=[(2.5, "TSTP"), (9.5, "CONT")]),
+           # two stops in one delay
+           life_base(family="stop-in-delay", delay=6, sigs=[(2.5, "TSTP"), (5.5, "CONT"), (7.5, "TSTP"), (10.5, "CONT")]),
+           # stop in the second delay of an exponential policy
+           life_base(family="stop-in-delay", backoff="exponential", delay=2, attempts=[_att(1.5, 1), _att(1.5, 1), _att(1.5, 0)],
+                     sigs=[(7.5, "TSTP"), (11.5, "CONT")]),
+           # stop during attempt 1 (which then fails), continue, then the delay
+           life_base(family="stop-then-delay", attempts=[_att(2.5, 1), _att(1.5, 0)], sigs=[(1.5, "TSTP"), (5.5, "CONT")]),
+           # stop during attempt 2: its own fresh stopwatch and slow-timeout interval are paused (slow events shift)
+           life_base(family="stop-in-attempt-2", period=2, delay=2, retries=1, attempts=[_att(1.5, 1), _att(5.0, 0)],
+                     sigs=[(4.5, "TSTP"), (7.5, "CONT")]),
+           # the test ignores SIGTSTP and fails while nextest is stopped: the delay starts at the continue
+           life_base(family="exit-while-stopped", delay=4, attempts=[_att(2.5, 1, stops=False), _att(1.5, 0)],
+                     sigs=[(1.5, "TSTP"), (6.5, "CONT")])]
+    if r is not None:
+        for _ in range(4):
+            d = r.choice([4, 5, 6])
+            a1 = r.choice([1.5, 2.5])
+            t1 = a1 + r.choice([1, 2])
+            scs.append(life_base(family="stop-in-delay", delay=d, attempts=[_att(a1, 1), _att(1.5, r.choice([0, 1]))],
+                                 retries=1, sigs=[(t1, "TSTP"), (t1 + r.choice([3, 4, 5]), "CONT")]))
+    return scs
+
+
+def life_shutdown_in_delay(r=None):
+    """shutdown signals landing in the retry delay: no further attempt, nextest exits promptly"""
+    scs = [life_base(family="shutdown-in-delay", delay=8, sigs=[(3.5, s)]) for s in ("INT", "TERM")]
+    scs.append(life_base(family="shutdown-in-delay", delay=8, sigs=[(3.5, "HUP"), (4.5, "QUIT")]))
+    # stopped in the delay, continued, then interrupted while still in the (stretched) delay
+    scs.append(life_base(family="stop-then-shutdown-in-delay", delay=8, sigs=[(2.5, "TSTP"), (5.5, "CONT"), (7.5, "INT")]))
+    if r is not None:
+        for _ in range(3):
+            scs.append(life_base(family="shutdown-in-delay", delay=r.choice([7, 9]), attempts=[_att(r.choice([1.5, 2.5]), 1), _att(1.5, 0)],
+                                 sigs=[(r.choice([4, 5]), r.choice(["INT", "TERM", "HUP", "QUIT"]))]))
+    return scs
+
+
+def life_cancel(r=None):
+    """cancellation reaching a unit that has retries left: in its delay, or mid-attempt (the F10 scenario: the
+    request is consumed by the running attempt, which then fails)"""
+    scs = [
+        # fail-fast while the subject is in its delay
+        life_base(family="failfast-in-delay", delay=9, canceller=dict(fail_at=3.5)),
+        # fail-fast mid-attempt, the attempt then fails with retries left
+        life_base(family="failfast-mid-attempt", delay=9, attempts=[_att(3.5, 1), _att(1.5, 0)], canceller=dict(fail_at=1.5)),
+        # the same in the second attempt
+        life_base(family="failfast-mid-attempt", delay=2, attempts=[_att(1.5, 1), _att(3.5, 1), _att(1.5, 0)],
+                  canceller=dict(fail_at=5.5)),
+        # shutdown signal mid-attempt: the test dies of it (a failed attempt with retries left)
+        life_base(family="shutdown-mid-attempt", delay=9, attempts=[_att(6.5, 1), _att(1.5, 0)], sigs=[(1.5, "INT")]),
+        life_base(family="shutdown-mid-attempt", delay=9, attempts=[_att(6.5, 1, on_term="ignore"), _att(1.5, 0)],
+                  sigs=[(1.5, "TERM")]),
+        # mid-attempt, but the attempt passes: Finished as usual
+        life_base(family="failfast-mid-attempt-pass", delay=9, attempts=[_att(3.5, 0)], canceller=dict(fail_at=1.5)),
+    ]
+    if r is not None:
+        for _ in range(3):
+            a1 = r.choice([2.5, 3.5])
+            scs.append(life_base(family="failfast-mid-attempt", delay=r.choice([8, 10]),
+                                 attempts=[_att(a1, 1), _att(1.5, 0)], canceller=dict(fail_at=a1 - r.choice([1, 2]))))
+    return scs
+
+
+def life_info(r=None):
+    """SIGUSR1 in each phase: running, terminating, retry delay, leak drain"""
+    return [
+        life_base(family="info", delay=5, attempts=[_att(2.5, 1), _att(2.5, 0)], sigs=[(1.5, "USR1"), (4.5, "USR1"), (8.5, "USR1")]),
+        # terminating (timeout, test ignores SIGTERM), then the delay, then attempt 2
+        life_base(family="info", period=1, ta=1, grace=4, delay=4, attempts=[_att(9, 1, on_term="ignore"), _att(0.5, 0)],
+                  retries=1, sigs=[(2.5, "USR1"), (6.5, "USR1")]),
+        # leak drain: the test exits, a descendant holds stdout
+        life_base(family="info", leak=4, delay=3, attempts=[_att(1.5, 1, hold=8), _att(1.5, 0)], retries=1,
+                  sigs=[(3.5, "USR1"), (7.0, "USR1")]),
+    ]
+
+
+# ---- wiring the whole-life stage into a property check
+
+def life_gate(chk):
+    """Properties/UnitLife.v builds for the regenerated pause table and its theorems are closed; when it does
+    not, look for a concrete failing request sequence in the delay loop"""
+    gate = vlib.coq_gate("UnitLife", extra_targets=["Model/UnitLifeEnv.vo", "gen/GenPauseTable.vo"])
+    if not gate["ok"]:
+        path = []
+        try:
+            v = vlib.coq_eval("lifebad", ["Base.Str", "Model.Clocks", "Model.UnitTimers", "Model.AbsTimers",
+                                          "Model.UnitLife", "gen.GenPauseTable"], ["delay_first_bad pause_table"])[0]
+            path = [{8: "Stop", 9: "Continue"}[c] for c in v[1:]] if v else []
+        except Exception:
+            path = []
+        if path:
+            chk.violation("counterexample", "cert:unit-life-delay-loop",
+                          dict(clause="a request sequence the dispatcher can produce makes the retry-delay loop fail "
+                                      "internally or leaves one of its two clocks in the wrong pause state",
+                               request_sequence=["(attempt fails, delay begins)"] + path, problems=gate["problems"]))
+        else:
+            chk.violation("broken-obligation", "coq-gate:unit-life", dict(problems=gate["problems"]), no_input=True)
+    return gate
+
+
+def merge_gates(g, g2):
+    out = dict(g)
+    out["obligations"] = g["obligations"] + g2["obligations"]
+    out["discharged"] = g["discharged"] + g2["discharged"]
+    out["theorems"] = list(g["theorems"]) + list(g2["theorems"])
+    out["axioms"] = dict(g["axioms"], **g2["axioms"])
+    out["problems"] = list(g["problems"]) + list(g2["problems"])
+    out["ok"] = g["ok"] and g2["ok"]
+    return out
+
+
+def life_stage(chk, rig, families, tag, r, thorough=False):
+    """run the whole-life scenario families (functions r -> scenarios); returns the scenarios used"""
+    scs = []
+    for f in families:
+        scs += f(r)
+        if thorough:
+            for _ in range(3):
+                scs += [s for s in f(r) if s not in scs]
+    if thorough:
+        scs += life_random(r, 16)
+    check_life_family(chk, rig, scs, tag)
+    return scs
+
+
+# ---- finding F16: the hand-over race (thorough tier only; probabilistic)
+
+def handover_race_stage(chk, rig, trials=24, fillers=60, par=3):
+    """An attempt with retries left ends between its unit's handling of Stop and nextest stopping itself: the test
+    exits when it receives SIGTSTP, while a stream of short tests keeps some other unit busy spawning (such a unit
+    cannot acknowledge, so the dispatcher waits). When the race is won the retry delay runs through the stop.
+    Returns the number of runs in which it was observed."""
+    delay_ms, stop_s = 1500, 1.8
+    cfg = ('[profile.default]\nslow-timeout = { period = "30s" }\nleak-timeout = "100ms"\nfail-fast = false\n'
+           'retries = 0\n[[profile.default.overrides]]\nfilter = "test(subject)"\n'
+           f'retries = {{ backoff = "fixed", count = 1, delay = "{delay_ms}ms" }}\n')
+    scen = {"bins": {"alpha::t1": {"tests": {"subject": {"attempts": [
+                {"sleep": 30, "exit": 1, "tstp": "exit"}, {"sleep": 0.1, "exit": 0}]}}},
+            "beta::t1": {"tests": {f"f{i:03d}": {"attempts": [{"sleep": 0.0, "exit": 0}]} for i in range(fillers)}}}}
+    listed = [f for f in vlib.known_findings().get("findings", []) if f.get("id") == "F16"]
+    out, idx, lock = [], list(range(trials)), threading.Lock()
+
+    def one(i):
+        t_start = [None]
+
+        def trig(delay):
+            def f(ctx):
+                if t_start[0] is None:
+                    for r in e2e.read_jsonl(ctx["log"]):
+                        if r.get("ev") == "start" and r.get("test") == "subject":
+                            t_start[0] = r["t"]
+                            break
+                return t_start[0] is not None and time.monotonic() >= t_start[0] + delay
+            return f
+        d1 = 0.15 + 0.013 * (i % 17)
+        res = rig.run(scen, cfg, args=["--no-fail-fast", "--test-threads", "6"],
+                      signals=[(trig(d1), signal.SIGTSTP), (trig(d1 + stop_s), signal.SIGCONT)], timeout=60)
+        tap = res["tap"]
+        sub = lambda e: e.get("test", [None, None])[1] == "subject"
+        fail = [e for e in tap if e.get("kind") == "TestAttemptFailedWillRetry" and sub(e)]
+        retry = [e for e in tap if e.get("kind") == "TestRetryStarted" and sub(e)]
+        rec = dict(trial=i, rc=res["rc"], panic=("panicked" in res["stderr"]) or res["rc"] == 101,
+                   timed_out=res["timed_out"], stderr_tail=res["stderr"][-400:] if res["rc"] == 101 else "")
+        if fail and retry and len(res["sent"]) == 2:
+            t_stop, t_cont = res["sent"][0][0], res["sent"][1][0]
+            stopped = [(t_stop, t_cont)]
+            gap = unstopped(retry[0]["mono"], stopped) - unstopped(fail[0]["mono"], stopped)
+            rec.update(failed_reported_after_cont_ms=(fail[0]["mono"] - t_cont) * 1000,
+                       retry_after_cont_ms=(retry[0]["mono"] - t_cont) * 1000, unstopped_gap_ms=gap * 1000,
+                       delay_ms=delay_ms, stopped_ms=(t_cont - t_stop) * 1000)
+            rec["hit"] = (retry[0]["mono"] - t_cont) * 1000 < delay_ms - 100
+        rig.cleanup(res)
+        with lock:
+            out.append(rec)
+
+    def worker():
+        while True:
+            with lock:
+                if not idx:
+                    return
+                i = idx.pop(0)
+            one(i)
+
+    ths = [threading.Thread(target=worker) for _ in range(par)]
+    for t in ths:
+        t.start()
+    for t in ths:
+        t.join()
+    hits = [r for r in out if r.get("hit")]
+    chk.count("handover_race_trials", len(out))
+    chk.count("handover_race_observed", len(hits))
+    broken = [r for r in out if r["panic"] or r["timed_out"]]
+    if broken:
+        chk.violation("counterexample", "oracle:" + chk.prop + ":handover-race",
+                      dict(clause="nextest failed internally or hung when a test exited on SIGTSTP", runs=broken[:3],
+                           scenario=scen, config=cfg))
+    elif hits:
+        if listed:
+            chk.known_finding(listed[0]["what"])
+        else:
+            chk.violation("counterexample", "oracle:" + chk.prop + ":handover-race",
+                          dict(clause=f"the retry delay of {delay_ms} ms counted the time the run was stopped: attempt 2 "
+                                      f"started {hits[0]['retry_after_cont_ms']:.0f} ms after SIGCONT",
+                               runs=hits[:3], scenario=scen, config=cfg))
+    return len(hits)
+
+
+def life_random(r, n=12):
+    """random whole-life scenarios: a stop/continue window placed inside attempt 1, the first delay or attempt 2,
+    optionally followed by a shutdown signal or an information request"""
+    scs = []
+    for _ in range(n):
+        retries = r.choice([1, 2])
+        atts = [_att(r.choice([2.5, 3.5]), 1) for _ in range(retries + 1)]
+        atts[-1]["exit"] = r.choice([0, 1])
+        if retries == 2 and r.random() < 0.5:
+            atts[1]["exit"] = 0
+        d = r.choice([3, 4, 5])
+        where = r.choice(["attempt-1", "delay-1", "attempt-2"])
+        t1 = {"attempt-1": 1.5, "delay-1": atts[0]["dur"] + 1.5, "attempt-2": atts[0]["dur"] + d + 1.0}[where]
+        ln = r.choice([3, 4])
+        sigs = [(t1, "TSTP"), (t1 + ln, "CONT")]
+        x = r.random()
+        if x < 0.3:
+            sigs.append((t1 + ln + r.choice([1, 2, 3]), r.choice(["INT", "TERM", "HUP", "QUIT"])))
+        elif x < 0.55:
+            sigs.append((t1 + ln + r.choice([1, 2, 3]), "USR1"))
+        scs.append(life_base(family="random:" + where, retries=retries, delay=d, attempts=atts, sigs=sigs,
+                             backoff=r.choice(["fixed", "fixed", "exponential"])))
+    return scs
